@@ -16,7 +16,7 @@ from ref import jwe as rjwe, b64 as rb, selftest
 LEVEL = "exploration"
 RULE = ("plaintext length n = 256000 + delta with delta in {-3..+3, 100, 255..260, 1000, ...} (placed by construction), small n, and "
         "multiples up to 64 MiB (quick) / 512 MiB (thorough) after expansion x compressibility class {constant, periodic (period 1-300), "
-        "text-like, random, random-then-zeros, zeros-then-random, record-like lines with one repeat length per DEFLATE length code} x enc (8) x serialization (compact, flattened); streams produced by "
+        "text-like, random, random-then-zeros, zeros-then-random, record-like lines with one repeat length per DEFLATE length code, incompressible blocks repeated at distances up to the 32 KiB window} x enc (8) x serialization (compact, flattened); streams produced by "
         "joserfc (zip=DEF) and by the reference (raw DEFLATE levels 0-9 incl. stored blocks, zlib-framed with the default header, "
         "huge streams built chunk-wise without materialising the plaintext). Oracle: n <= 256000 -> exact plaintext; n > 256000 -> "
         "ExceededSizeError, never data; joserfc's own compressed stream is complete raw DEFLATE; tracemalloc peak during decryption stays "
@@ -27,7 +27,7 @@ BUDGET_S = {"quick": 85, "thorough": 1500}
 FLOORS = {"quick": {"near-limit": 600, "over-limit": 400, "under-limit": 400, "ratio>=100": 300, "producer:joserfc": 300, "producer:ref": 500, "zlib-framed": 60},
           "thorough": {"near-limit": 6000}}
 LIMIT = 256000
-CLASSES = ["constant", "periodic", "text", "random", "random-then-zeros", "zeros-then-random", "records"]
+CLASSES = ["constant", "periodic", "text", "random", "random-then-zeros", "zeros-then-random", "records", "far-repeat"]
 # one repeat length per DEFLATE length code 257..285 (RFC 1951 3.2.5): decides HLIT and with it the first octet of a dynamic block
 LENGTH_CODE_REPS = [3, 4, 5, 6, 7, 8, 9, 10, 11, 13, 15, 17, 20, 24, 28, 32, 38, 46, 54, 62, 74, 90, 106, 122, 146, 178, 210, 242, 258]
 
@@ -56,6 +56,10 @@ def make_plaintext(cls: str, n: int, seed: int, period: int = 7) -> bytes:
         return bytes(out[:n])
     if cls == "random":
         return rnd(n)
+    if cls == "far-repeat":
+        # an incompressible block repeated at a long distance: back-references span most of the 32 KiB DEFLATE window
+        unit = rnd([5000, 9000, 20000, 30000, 32000, 32768][seed % 6])
+        return (unit * (n // len(unit) + 1))[:n]
     if cls == "records":
         # log-like lines: a varying id and one of 30 fixed tokens of width `period`; enough lines for several DEFLATE blocks
         w = max(1, period - 2)
